@@ -23,7 +23,7 @@ type ctx struct {
 	// still alive, with data in flight, when such an error arrives)
 	Conn2L, Conn2P uint16
 	Conn2Ack       uint32
-	SMAC, PMAC   [6]byte
+	SMAC, PMAC     [6]byte
 }
 
 func ip4(c *ctx, proto uint8, payload []byte, id uint16) []byte {
@@ -38,9 +38,19 @@ func corpus(c *ctx, r *fw.Rand) pkt {
 	switch r.Intn(16) {
 	case 0: // ARP request for the stack's address
 		a := rfc.ARP{HType: 1, PType: 0x0800, HLen: 6, PLen: 4, Op: uint16(1 + r.Intn(2)), SHA: c.PMAC, SPA: c.P4, TPA: c.S4}
+		if r.Chance(1, 2) {
+			// ... from / about one of the neighbours whose resolution may be pending or have failed
+			a.SPA = [4]byte{10, 0, 0, byte(50 + r.Intn(4))}
+			copy(a.SHA[:], []byte{2, 7, 7, 7, 7, a.SPA[3]})
+		}
 		return pkt{rfc.EthARP, a.Bytes()}
 	case 1: // echo request v4
 		m := rfc.ICMP{Type: 8, Rest: [4]byte{1, 2, 0, byte(r.U32())}, Payload: r.Bytes(r.Intn(100))}
+		if r.Chance(1, 3) {
+			// from a neighbour nobody has heard of: the reply needs a resolution that will fail
+			src := [4]byte{10, 0, 0, byte(50 + r.Intn(4))}
+			return pkt{rfc.EthIPv4, rfc.IPv4{TTL: 64, Proto: rfc.ProtoICMP, ID: uint16(r.U32()), Src: src, Dst: c.S4, Payload: m.BytesV4(true)}.Bytes(true)}
+		}
 		return pkt{rfc.EthIPv4, ip4(c, rfc.ProtoICMP, m.BytesV4(true), uint16(r.U32()))}
 	case 2: // echo request v6
 		m := rfc.ICMP{Type: 128, Rest: [4]byte{1, 2, 0, byte(r.U32())}, Payload: r.Bytes(r.Intn(100))}
@@ -73,7 +83,7 @@ func corpus(c *ctx, r *fw.Rand) pkt {
 			case 3:
 				o = append(o, rfc.OptSACKPerm()...)
 			case 4:
-				o = append(o, 1)
+				o = append(o, []byte{1, 0, 0, 1}[r.Intn(4)]) // NOP or end-of-option-list in the middle
 			default:
 				o = append(o, byte(r.U32()), byte(2+r.Intn(6)))
 				o = append(o, r.Bytes(r.Intn(6))...)
